@@ -137,7 +137,7 @@ func NewBackend(name string, g *Group) *Backend {
 }
 
 const (
-	portLo, portHi = 21000, 32000 // below the kernel's ephemeral range
+	portLo, portHi = 12000, 32000 // below the kernel's ephemeral range
 	portBlock      = 500
 )
 
@@ -159,13 +159,27 @@ func leaseBlock() bool {
 	start := os.Getpid() % n
 	for k := 0; k < n; k++ {
 		idx := (start + k) % n
-		f, err := os.OpenFile(filepath.Join(dir, fmt.Sprintf("block%02d", idx)), os.O_CREATE|os.O_RDWR, 0o666)
+		base := portLo + idx*portBlock
+		f, err := os.OpenFile(filepath.Join(dir, fmt.Sprintf("port%05d", base)), os.O_CREATE|os.O_RDWR, 0o666)
 		if err != nil {
 			continue
 		}
 		if syscall.Flock(int(f.Fd()), syscall.LOCK_EX|syscall.LOCK_NB) != nil {
 			f.Close()
 			continue
+		}
+		// (processes of an earlier revision of this harness lease 21000.. under the names block00..block21: a block
+		// in that range is taken under both names, so that a sweep started from an older snapshot is respected)
+		if base >= 21000 {
+			g, err := os.OpenFile(filepath.Join(dir, fmt.Sprintf("block%02d", (base-21000)/portBlock)), os.O_CREATE|os.O_RDWR, 0o666)
+			if err != nil || syscall.Flock(int(g.Fd()), syscall.LOCK_EX|syscall.LOCK_NB) != nil {
+				if g != nil {
+					g.Close()
+				}
+				f.Close()
+				continue
+			}
+			portLeaseFiles = append(portLeaseFiles, g)
 		}
 		portLeaseFiles = append(portLeaseFiles, f) // kept open: the lock lives as long as the process
 		portBlocks = append(portBlocks, idx)
@@ -188,7 +202,20 @@ func nextPort() int {
 		if !leaseBlock() {
 			// every block is held: walk this process's own blocks again (their early ports are long closed)
 			if len(portBlocks) == 0 {
-				portCur, portEnd = portLo+(os.Getpid()%20)*portBlock, portHi // no lock directory at all: as before
+				// nothing to fall back on: other test processes hold every block. Wait for one to finish rather
+				// than share addresses with them (a foreign listener on a port this process believes to be its
+				// own answers in the name of the wrong stack)
+				for t0 := time.Now(); time.Since(t0) < 3*time.Minute; {
+					portMu.Unlock()
+					time.Sleep(500 * time.Millisecond)
+					portMu.Lock()
+					if leaseBlock() {
+						break
+					}
+				}
+				if len(portBlocks) == 0 {
+					portCur, portEnd = portLo+(os.Getpid()%20)*portBlock, portHi // no lock directory at all: as before
+				}
 			} else {
 				idx := portBlocks[portWrap%len(portBlocks)]
 				portWrap++
